@@ -301,51 +301,78 @@ def x7(ctx, rid):
     ctx.ok(rid, 'scan', '', '%d registration / removal pairs on shared collections in client-cancellable bodies, %d with a suspension point between' % (n, bad), nontrivial=False, queries=max(1, n))
 
 
+def _x8_gates(prog, f, bb):
+    """(switches decided by IndexTrait::load only, [(switch, foreign origins)]) among the non-`?` decisions in front of bb"""
+    gates, foreign = [], []
+    for sw in core.deciding_switches(f, bb):
+        kind, ty = core.switch_kind(f, sw)
+        if kind == 'try':
+            continue
+        l = op_local(f.blocks[sw]['t']['o'])
+        srcs = []
+        for (dbb, si, k, r) in f.defs().get(l, []):
+            if k == 'assign' and r['k'] == 'discr':
+                srcs += core.origins(f, r['p'][0])
+            elif k in ('assign', 'call'):
+                srcs += core.origins(f, l)
+        loads = [o for o in srcs if o.kind == 'call' and o.data.name == 'load' and 'IndexTrait' in o.data.path]
+        if srcs and len(loads) == len(srcs):
+            gates.append(sw)
+        else:
+            foreign.append((sw, [o for o in srcs if o not in loads]))
+    return gates, foreign
+
+
 def x8(ctx, rid):
     """a record whose write future was dropped between the append and the index push lies in the blob file but in no index; its
     fate is settled at the next start.  In a running session an index is rebuilt from the blob file only because the index
     file could not be loaded: every in-session call of try_regenerate_index is decided by the Err of IndexTrait::load and
-    nothing else (a consistency heuristic that triggers the rebuild would make the cancelled write appear later on)"""
+    nothing else (a consistency heuristic that triggers the rebuild would make the cancelled write appear later on).
+    A call site without a decision of its own (a helper) is judged at the call sites of its function."""
     prog = ctx.prog
     n = 0
+
+    def startup(root):
+        return root.endswith('::from_file') or root.endswith('::try_regenerate_index')
+
+    def judge(f, c, depth, seen):
+        """None = fine, else (where, text)"""
+        gates, foreign = _x8_gates(prog, f, c.bb)
+        if foreign:
+            return (f.where(foreign[0][0]), 'an in-session rebuild of the index from the blob file also depends on %s: a check that fails '
+                    'on an unindexed tail makes the record of a cancelled write visible later in the session' % (foreign[0][1][:2] or 'another condition'))
+        if gates:
+            return None
+        root = prog.fns[f.id].root
+        sites = [s for s in core.call_sites_of(prog, root) if s.bb in s.fn.reachable() and not startup(prog.fns[s.fn.id].root)]
+        if f.is_coroutine:
+            # the coroutine body belongs to its stub: callers call the stub
+            sites = [s for s in core.call_sites_of(prog, root) if s.bb in s.fn.reachable() and not startup(prog.fns[s.fn.id].root)]
+        if depth <= 0 or not sites or root in seen:
+            return (c.where(), 'an in-session rebuild of the index from the blob file is not conditional on a failed IndexTrait::load: '
+                    'records of cancelled writes (in the file, in no index) become visible in the running session')
+        for s in sites:
+            r = judge(s.fn, s, depth - 1, seen | {root})
+            if r:
+                return r
+        return None
+
     for f in prog.fns.values():
         if f.file != 'src/blob/core.rs':
             continue
         root = prog.fns[f.id].root
-        if root.endswith('::from_file') or root.endswith('::try_regenerate_index'):
+        if startup(root):
             continue    # opening a blob at start-up: the next start is where cancelled writes are settled
         for c in f.calls:
             if c.bb not in f.reachable() or c.name != 'try_regenerate_index':
                 continue
             n += 1
             key = 'rebuild-only-on-load-error|%s' % root
-            gates, foreign = [], []
-            for sw in core.deciding_switches(f, c.bb):
-                kind, ty = core.switch_kind(f, sw)
-                if kind == 'try':
-                    continue
-                l = op_local(f.blocks[sw]['t']['o'])
-                srcs = []
-                for (bb, si, k, r) in f.defs().get(l, []):
-                    if k == 'assign' and r['k'] == 'discr':
-                        srcs += core.origins(f, r['p'][0])
-                    elif k == 'assign':
-                        srcs += core.origins(f, l)
-                    elif k == 'call':
-                        srcs += core.origins(f, l)
-                loads = [o for o in srcs if o.kind == 'call' and o.data.name == 'load' and 'IndexTrait' in o.data.path]
-                if srcs and len(loads) == len(srcs):
-                    gates.append(sw)
-                else:
-                    foreign.append((sw, [o for o in srcs if o not in loads]))
-            if gates and not foreign:
+            r = judge(f, c, 2, frozenset())
+            if r is None:
                 ctx.ok(rid, key, c.where(), 'decided by the result of IndexTrait::load only')
-            elif not gates and not foreign:
-                ctx.bad(rid, key, c.where(), 'an in-session rebuild of the index from the blob file is not conditional on a failed IndexTrait::load: '
-                        'records of cancelled writes (in the file, in no index) become visible in the running session')
             else:
-                ctx.bad(rid, key, f.where(foreign[0][0]), 'an in-session rebuild of the index from the blob file also depends on %s: a check that fails '
-                        'on an unindexed tail makes the record of a cancelled write visible later in the session' % (foreign[0][1][:2] or 'another condition'))
+                ctx.bad(rid, key, r[0], r[1])
     if n < 1:
         raise core.AnchorLost('in-session try_regenerate_index call sites: %d' % n)
 
